@@ -2,6 +2,1386 @@
 
 package dnsserver
 
-import "github.com/AdguardTeam/AdGuardDNS/internal/dnsserver/zzverif/vrt"
+// C01 tier B: the same message over every transport.  Each driver hands the
+// client's bytes to the function the transport's accept loop calls for one
+// message (the accept-level functions acceptUDPMsg / acceptTCPMsg where they
+// exist, so that the read-side framing is real code too) and captures what is
+// written to an in-memory connection.
 
-func c01TierB(r *vrt.Run) {}
+import (
+	"bytes"
+	"context"
+	"encoding/base64"
+	"encoding/binary"
+	"encoding/json"
+	"fmt"
+	"io"
+	"net"
+	"net/http"
+	"net/http/httptest"
+	"net/url"
+	"strconv"
+	"strings"
+	"sync"
+	"time"
+
+	"github.com/AdguardTeam/AdGuardDNS/internal/dnsserver/netext"
+	"github.com/AdguardTeam/AdGuardDNS/internal/dnsserver/zzverif/vdns"
+	"github.com/AdguardTeam/AdGuardDNS/internal/dnsserver/zzverif/vrt"
+	"github.com/AdguardTeam/golibs/syncutil"
+	"github.com/miekg/dns"
+	"github.com/quic-go/quic-go"
+)
+
+// ---- In-memory connections -------------------------------------------------------
+
+// c01PacketConn is a fake net.PacketConn: one datagram to read, all written
+// datagrams captured.
+type c01PacketConn struct {
+	in   []byte
+	sent [][]byte
+}
+
+func (c *c01PacketConn) ReadFrom(p []byte) (n int, addr net.Addr, err error) {
+	if c.in == nil {
+		return 0, nil, io.EOF
+	}
+	n = copy(p, c.in)
+	c.in = nil
+
+	return n, c01UDPRemote, nil
+}
+
+func (c *c01PacketConn) WriteTo(p []byte, _ net.Addr) (n int, err error) {
+	c.sent = append(c.sent, bytes.Clone(p))
+
+	return len(p), nil
+}
+func (c *c01PacketConn) Close() error                       { return nil }
+func (c *c01PacketConn) LocalAddr() net.Addr                { return c01UDPLocal }
+func (c *c01PacketConn) SetDeadline(_ time.Time) error      { return nil }
+func (c *c01PacketConn) SetReadDeadline(_ time.Time) error  { return nil }
+func (c *c01PacketConn) SetWriteDeadline(_ time.Time) error { return nil }
+
+// c01Conn is a fake net.Conn: a byte stream to read, written bytes captured.
+type c01Conn struct {
+	in     *bytes.Reader
+	out    bytes.Buffer
+	closed bool
+}
+
+func (c *c01Conn) Read(p []byte) (n int, err error) {
+	if c.closed {
+		return 0, net.ErrClosed
+	}
+
+	return c.in.Read(p)
+}
+
+func (c *c01Conn) Write(p []byte) (n int, err error) {
+	if c.closed {
+		return 0, net.ErrClosed
+	}
+
+	return c.out.Write(p)
+}
+func (c *c01Conn) Close() error                       { c.closed = true; return nil }
+func (c *c01Conn) LocalAddr() net.Addr                { return c01TCPLocal }
+func (c *c01Conn) RemoteAddr() net.Addr               { return c01TCPRemote }
+func (c *c01Conn) SetDeadline(_ time.Time) error      { return nil }
+func (c *c01Conn) SetReadDeadline(_ time.Time) error  { return nil }
+func (c *c01Conn) SetWriteDeadline(_ time.Time) error { return nil }
+
+// c01Stream is a fake quic.Stream.
+type c01Stream struct {
+	quic.Stream
+	in  *bytes.Reader
+	out bytes.Buffer
+}
+
+func (s *c01Stream) Read(p []byte) (n int, err error)  { return s.in.Read(p) }
+func (s *c01Stream) Write(p []byte) (n int, err error) { return s.out.Write(p) }
+func (s *c01Stream) Close() error                      { return nil }
+func (s *c01Stream) SetReadDeadline(_ time.Time) error { return nil }
+
+// c01QUICConn is a fake quic.Connection.
+type c01QUICConn struct {
+	quic.Connection
+	closedWith *quic.ApplicationErrorCode
+}
+
+func (c *c01QUICConn) LocalAddr() net.Addr  { return c01UDPLocal }
+func (c *c01QUICConn) RemoteAddr() net.Addr { return c01UDPRemote }
+func (c *c01QUICConn) CloseWithError(code quic.ApplicationErrorCode, _ string) error {
+	if c.closedWith == nil {
+		c.closedWith = &code
+	}
+
+	return nil
+}
+
+// c01CryptRW is a fake dnscrypt.ResponseWriter: it captures the messages the
+// server hands to the DNSCrypt library for encryption.
+type c01CryptRW struct {
+	local, remote net.Addr
+	msgs          []*dns.Msg
+}
+
+func (w *c01CryptRW) LocalAddr() net.Addr  { return w.local }
+func (w *c01CryptRW) RemoteAddr() net.Addr { return w.remote }
+func (w *c01CryptRW) WriteMsg(m *dns.Msg) error {
+	w.msgs = append(w.msgs, m)
+
+	return nil
+}
+
+// ---- Rig ---------------------------------------------------------------------------
+
+// c01Rig holds one real server object of every kind, all with handler H.
+type c01Rig struct {
+	metrics *c01Metrics
+	plain   *ServerDNS
+	dot     *ServerDNS
+	doq     *ServerQUIC
+	doh     *ServerHTTPS
+	crypt   *ServerDNSCrypt
+}
+
+var c01TheRig *c01Rig
+
+func c01GetRig() *c01Rig {
+	if c01TheRig != nil {
+		return c01TheRig
+	}
+	rig := &c01Rig{metrics: &c01Metrics{}}
+	base := func(name string) ConfigBase {
+		return ConfigBase{Name: name, Addr: "192.0.2.53:53", Handler: c01Handler{}, Metrics: rig.metrics}
+	}
+	rig.plain = NewServerDNS(ConfigDNS{ConfigBase: base("c01-dns"), MaxUDPRespSize: dns.MaxMsgSize})
+	rig.dot = NewServerTLS(ConfigTLS{ConfigDNS: ConfigDNS{ConfigBase: base("c01-dot")}}).ServerDNS
+	rig.doq = NewServerQUIC(ConfigQUIC{ConfigBase: base("c01-doq")})
+	rig.doh = NewServerHTTPS(ConfigHTTPS{ConfigBase: base("c01-doh")})
+	rig.crypt = NewServerDNSCrypt(ConfigDNSCrypt{ConfigBase: base("c01-dnscrypt")})
+	c01TheRig = rig
+
+	return rig
+}
+
+// c01UDPLimit is the size limit that applies to a UDP response to a request
+// advertising adv (0: no EDNS) on the rig's plain server (configured maximum
+// 65535) and on DNSCrypt over UDP.
+func c01UDPLimit(adv uint16) int {
+	if adv < dns.MinMsgSize {
+		return dns.MinMsgSize
+	}
+
+	return int(adv)
+}
+
+// ---- Observations --------------------------------------------------------------------
+
+// c01TObs is what one transport showed for one client message.
+type c01TObs struct {
+	// Panicked is set when a panic escaped the per-message function.
+	Panicked string
+	// Msgs are the DNS messages sent back, decoded.
+	Msgs []*dns.Msg
+	// JSON is the decoded JSON body of a DoH JSON exchange with status 200.
+	JSON *c01JSONMsg
+	// Garbled is set when bytes were sent that do not parse as the
+	// transport's framing of DNS messages.
+	Garbled string
+	// Closed is set when the server closed the connection.
+	Closed bool
+	// HTTPStatus is the HTTP status of a DoH exchange.
+	HTTPStatus int
+	// Skipped is set when the message never reaches repository code on this
+	// transport (dropped by the DNSCrypt library's own check).
+	Skipped bool
+}
+
+func (o c01TObs) note() string {
+	switch {
+	case o.Panicked != "":
+		return "panic: " + o.Panicked
+	case o.Garbled != "":
+		return "garbled: " + o.Garbled
+	case o.Skipped:
+		return "dropped by the dnscrypt library"
+	case o.HTTPStatus != 0:
+		return fmt.Sprintf("http %d", o.HTTPStatus)
+	case o.Closed:
+		return "connection closed"
+	default:
+		return "nothing sent"
+	}
+}
+
+// c01JSONMsg is the documented JSON format (Google's DNS-over-HTTPS JSON
+// response), decoded independently of the repository's type.
+type c01JSONMsg struct {
+	Status    *int         `json:"Status"`
+	Question  []c01JSONQ   `json:"Question"`
+	Answer    []c01JSONRR  `json:"Answer"`
+	Authority *[]c01JSONRR `json:"Authority"`
+	Extra     []c01JSONRR  `json:"Extra"`
+}
+
+type c01JSONQ struct {
+	Name string `json:"name"`
+	Type uint16 `json:"type"`
+}
+
+type c01JSONRR struct {
+	Name  string  `json:"name"`
+	Type  uint16  `json:"type"`
+	Class *uint16 `json:"class"`
+	TTL   uint32  `json:"TTL"`
+	Data  string  `json:"data"`
+}
+
+// c01DecodeDatagrams decodes each datagram as one message.
+func c01DecodeDatagrams(sent [][]byte, obs *c01TObs) {
+	for _, d := range sent {
+		m := &dns.Msg{}
+		if err := m.Unpack(d); err != nil {
+			obs.Garbled = fmt.Sprintf("datagram %x does not decode: %v", d, err)
+
+			return
+		}
+		obs.Msgs = append(obs.Msgs, m)
+	}
+}
+
+// c01DecodeFrames decodes a stream of length-prefixed messages.
+func c01DecodeFrames(b []byte, obs *c01TObs) {
+	for len(b) > 0 {
+		if len(b) < 2 {
+			obs.Garbled = fmt.Sprintf("%d stray octet(s) %x at the end of the stream", len(b), b)
+
+			return
+		}
+		l := int(binary.BigEndian.Uint16(b))
+		if len(b) < 2+l {
+			obs.Garbled = fmt.Sprintf("length prefix %d but only %d octets follow", l, len(b)-2)
+
+			return
+		}
+		m := &dns.Msg{}
+		if err := m.Unpack(b[2 : 2+l]); err != nil {
+			obs.Garbled = fmt.Sprintf("frame of %d octets does not decode: %v", l, err)
+
+			return
+		}
+		obs.Msgs = append(obs.Msgs, m)
+		b = b[2+l:]
+	}
+}
+
+func c01Frame(wire []byte) []byte {
+	return append(binary.BigEndian.AppendUint16(nil, uint16(len(wire))), wire...)
+}
+
+// ---- Drivers ---------------------------------------------------------------------------
+
+// c01UDP feeds one datagram to the real acceptUDPMsg of the plain server.
+func c01UDP(rig *c01Rig, datagram []byte) (obs c01TObs) {
+	s := rig.plain
+	pc := &c01PacketConn{in: append([]byte{}, datagram...)}
+	var err error
+	obs.Panicked = vrt.Catch(func() { err = s.acceptUDPMsg(context.Background(), pc) })
+	s.wg.Wait()
+	if err != nil && obs.Panicked == "" {
+		obs.Garbled = "acceptUDPMsg: " + err.Error()
+	}
+	c01DecodeDatagrams(pc.sent, &obs)
+
+	return obs
+}
+
+// c01UDPDirect calls the per-message function serveUDPPacket itself.
+func c01UDPDirect(rig *c01Rig, datagram []byte) (obs c01TObs) {
+	s := rig.plain
+	pc := &c01PacketConn{}
+	ctx, cancel := c01ReqCtx(s.ServerBase)
+	defer cancel()
+	s.wg.Add(1)
+	obs.Panicked = vrt.Catch(func() {
+		s.serveUDPPacket(ctx, append([]byte{}, datagram...), pc, netext.NewSimplePacketSession(c01UDPLocal, c01UDPRemote))
+	})
+	c01DecodeDatagrams(pc.sent, &obs)
+
+	return obs
+}
+
+// c01TCPSession is one in-memory TCP or TLS connection to a server.
+type c01TCPSession struct {
+	s       *ServerDNS
+	conn    *c01Conn
+	wg      *sync.WaitGroup
+	writeMu *sync.Mutex
+	seen    int
+}
+
+func c01NewTCPSession(s *ServerDNS, stream []byte) *c01TCPSession {
+	return &c01TCPSession{s: s, conn: &c01Conn{in: bytes.NewReader(stream)}, wg: &sync.WaitGroup{}, writeMu: &sync.Mutex{}}
+}
+
+// next lets the real acceptTCPMsg read and serve the next message of the
+// stream and returns what was written for it.
+func (ts *c01TCPSession) next() (obs c01TObs, readErr error) {
+	obs.Panicked = vrt.Catch(func() {
+		readErr = ts.s.acceptTCPMsg(ts.conn, ts.wg, ts.writeMu, ts.s.conf.ReadTimeout, syncutil.EmptySemaphore{})
+	})
+	ts.wg.Wait()
+	out := ts.conn.out.Bytes()
+	c01DecodeFrames(out[ts.seen:], &obs)
+	ts.seen = len(out)
+	obs.Closed = ts.conn.closed
+
+	return obs, readErr
+}
+
+// c01TCP sends one framed message on a fresh connection.
+func c01TCP(s *ServerDNS, stream []byte) (obs c01TObs) {
+	obs, _ = c01NewTCPSession(s, stream).next()
+
+	return obs
+}
+
+// c01TCPDirect calls the per-message function serveTCPMessage itself.
+func c01TCPDirect(s *ServerDNS, wire []byte) (obs c01TObs) {
+	ctx, cancel := c01ReqCtx(s.ServerBase)
+	defer cancel()
+	conn := &c01Conn{in: bytes.NewReader(nil)}
+	wg := &sync.WaitGroup{}
+	wg.Add(1)
+	obs.Panicked = vrt.Catch(func() { s.serveTCPMessage(ctx, wg, &sync.Mutex{}, append([]byte{}, wire...), conn) })
+	c01DecodeFrames(conn.out.Bytes(), &obs)
+	obs.Closed = conn.closed
+
+	return obs
+}
+
+// c01DoQ gives one stream with the given bytes to the real per-stream
+// function.
+func c01DoQ(rig *c01Rig, streamBytes []byte) (obs c01TObs) {
+	s := rig.doq
+	ctx, cancel := c01ReqCtx(s.ServerBase)
+	defer cancel()
+	st := &c01Stream{in: bytes.NewReader(streamBytes)}
+	conn := &c01QUICConn{}
+	wg := &sync.WaitGroup{}
+	wg.Add(1)
+	obs.Panicked = vrt.Catch(func() { s.serveQUICStreamAsync(ctx, st, conn, wg) })
+	c01DecodeFrames(st.out.Bytes(), &obs)
+	obs.Closed = conn.closedWith != nil
+
+	return obs
+}
+
+// c01HTTP serves one HTTP request with the real DoH handler.
+func c01HTTP(rig *c01Rig, method, target string, body []byte, jsonBody bool) (obs c01TObs) {
+	h := &httpHandler{srv: rig.doh, localAddr: c01TCPLocal}
+	var rd io.Reader
+	if body != nil {
+		rd = bytes.NewReader(body)
+	}
+	hr := httptest.NewRequest(method, "https://dns.example"+target, rd)
+	if body != nil {
+		hr.Header.Set("Content-Type", MimeTypeDoH)
+	}
+	hr.Header.Set("Accept", MimeTypeDoH)
+	hr.RemoteAddr = "198.51.100.7:40000"
+	rec := httptest.NewRecorder()
+	obs.Panicked = vrt.Catch(func() { h.ServeHTTP(rec, hr) })
+	obs.HTTPStatus = rec.Code
+	if rec.Code != http.StatusOK || obs.Panicked != "" {
+		return obs
+	}
+	data := rec.Body.Bytes()
+	if len(data) == 0 {
+		return obs
+	}
+	if jsonBody {
+		jm := &c01JSONMsg{}
+		if err := json.Unmarshal(data, jm); err != nil {
+			obs.Garbled = fmt.Sprintf("json body %.200q does not decode: %v", data, err)
+
+			return obs
+		}
+		obs.JSON = jm
+
+		return obs
+	}
+	m := &dns.Msg{}
+	if err := m.Unpack(data); err != nil {
+		obs.Garbled = fmt.Sprintf("body %x does not decode: %v", data, err)
+
+		return obs
+	}
+	obs.Msgs = []*dns.Msg{m}
+
+	return obs
+}
+
+// c01Crypt does what the DNSCrypt library (dnscrypt/v2 Server.serveDNS) does
+// with a decrypted message: decode it, drop it unless it is a single-question
+// query, call the repository's dnsCryptHandler and answer SERVFAIL if that
+// returns an error.
+func c01Crypt(rig *c01Rig, udp bool, wire []byte) (obs c01TObs) {
+	r := &dns.Msg{}
+	if err := r.Unpack(wire); err != nil || len(r.Question) != 1 || r.Response {
+		obs.Skipped = true
+
+		return obs
+	}
+	rw := &c01CryptRW{local: c01TCPLocal, remote: c01TCPRemote}
+	if udp {
+		rw.local, rw.remote = c01UDPLocal, c01UDPRemote
+	}
+	h := &dnsCryptHandler{srv: rig.crypt}
+	var err error
+	obs.Panicked = vrt.Catch(func() { err = h.ServeDNS(rw, r) })
+	if err != nil && obs.Panicked == "" {
+		_ = rw.WriteMsg((&dns.Msg{}).SetRcode(r, dns.RcodeServerFailure))
+	}
+	for _, m := range rw.msgs {
+		b, perr := m.Pack()
+		if perr != nil {
+			obs.Garbled = "message handed to the dnscrypt library does not pack: " + perr.Error()
+
+			return obs
+		}
+		snap := &dns.Msg{}
+		if perr = snap.Unpack(b); perr != nil {
+			obs.Garbled = "message handed to the dnscrypt library does not decode: " + perr.Error()
+
+			return obs
+		}
+		obs.Msgs = append(obs.Msgs, snap)
+	}
+
+	return obs
+}
+
+// c01Transports are the client variants, in a fixed order.
+var c01Transports = []string{
+	"udp", "tcp", "dot", "doq", "doh-post", "doh-get", "doh-json", "doh-json-wire", "dnscrypt-udp", "dnscrypt-tcp",
+}
+
+func c01IsJSON(t string) bool { return t == "doh-json" || t == "doh-json-wire" }
+
+// c01JSONTarget builds the JSON API request of a question.
+func c01JSONTarget(q dns.Question, cd, do, wireCT, mnemonic bool) string {
+	v := url.Values{}
+	v.Set("name", q.Name)
+	// "a number in [1, 65535] or a canonical string (case-insensitive)".
+	ts := strconv.Itoa(int(q.Qtype))
+	if s, ok := dns.TypeToString[q.Qtype]; ok && mnemonic && dns.StringToType[strings.ToUpper(s)] == q.Qtype {
+		ts = strings.ToLower(s)
+	}
+	v.Set("type", ts)
+	cs := strconv.Itoa(int(q.Qclass))
+	if s, ok := dns.ClassToString[q.Qclass]; ok && mnemonic && dns.StringToClass[strings.ToUpper(s)] == q.Qclass {
+		cs = strings.ToLower(s)
+	}
+	if q.Qclass != dns.ClassINET || mnemonic {
+		v.Set("qc", cs)
+	}
+	if cd {
+		v.Set("cd", "1")
+	}
+	if do {
+		v.Set("do", "true")
+	}
+	if wireCT {
+		v.Set("ct", MimeTypeDoH)
+	}
+
+	return PathJSON + "?" + v.Encode()
+}
+
+// c01Send sends the well-formed message wire (decoded: req) over transport t.
+// direct selects the bare per-message functions (no worker pool), so that an
+// escaping panic is visible.
+func c01Send(rig *c01Rig, t string, wire []byte, req *dns.Msg, direct bool) (obs c01TObs) {
+	switch t {
+	case "udp":
+		if direct {
+			return c01UDPDirect(rig, wire)
+		}
+
+		return c01UDP(rig, wire)
+	case "tcp", "dot":
+		s := rig.plain
+		if t == "dot" {
+			s = rig.dot
+		}
+		if direct {
+			return c01TCPDirect(s, wire)
+		}
+
+		return c01TCP(s, c01Frame(wire))
+	case "doq":
+		return c01DoQ(rig, c01Frame(wire))
+	case "doh-post":
+		return c01HTTP(rig, http.MethodPost, PathDoH, wire, false)
+	case "doh-get":
+		return c01HTTP(rig, http.MethodGet, PathDoH+"?dns="+base64.RawURLEncoding.EncodeToString(wire), nil, false)
+	case "doh-json", "doh-json-wire":
+		opt := req.IsEdns0()
+		target := c01JSONTarget(req.Question[0], req.CheckingDisabled, opt != nil && opt.Do(), t == "doh-json-wire", req.Id%2 == 1)
+
+		return c01HTTP(rig, http.MethodGet, target, nil, t == "doh-json")
+	case "dnscrypt-udp":
+		return c01Crypt(rig, true, wire)
+	case "dnscrypt-tcp":
+		return c01Crypt(rig, false, wire)
+	}
+	vrt.Fatalf("c01: unknown transport %q", t)
+
+	return obs
+}
+
+// ---- Well-formed queries: agreement -------------------------------------------------------
+
+// c01Query is one well-formed query of tier B.
+type c01Query struct {
+	Name   string `json:"name"`
+	Qtype  uint16 `json:"qtype"`
+	Qclass uint16 `json:"qclass"`
+	RD     bool   `json:"rd"`
+	AD     bool   `json:"ad"`
+	CD     bool   `json:"cd"`
+	EDNS   string `json:"edns"`
+}
+
+var c01EDNSKinds = []string{"none", "512", "1232", "4096", "do", "nsid", "padding", "keepalive", "cookie", "all"}
+
+func c01QueryMsg(q c01Query) (m *dns.Msg) {
+	idSum := uint32(q.Qtype)*3 + uint32(q.Qclass)*5 + uint32(len(q.EDNS))
+	for i := 0; i < len(q.Name); i++ {
+		idSum = idSum*33 + uint32(q.Name[i])
+	}
+	m = &dns.Msg{
+		MsgHdr:   dns.MsgHdr{Id: 0x3000 | uint16(idSum&0x0fff), RecursionDesired: q.RD, AuthenticatedData: q.AD, CheckingDisabled: q.CD},
+		Question: []dns.Question{{Name: q.Name, Qtype: q.Qtype, Qclass: q.Qclass}},
+	}
+	opt := func(size uint16, do bool, opts ...dns.EDNS0) {
+		m.SetEdns0(size, do)
+		o := m.IsEdns0()
+		o.Option = append(o.Option, opts...)
+	}
+	nsid := &dns.EDNS0_NSID{Code: dns.EDNS0NSID}
+	padding := &dns.EDNS0_PADDING{Padding: make([]byte, 16)}
+	keepalive := &dns.EDNS0_TCP_KEEPALIVE{Code: dns.EDNS0TCPKEEPALIVE}
+	cookie := &dns.EDNS0_COOKIE{Code: dns.EDNS0COOKIE, Cookie: "0123456789abcdef"}
+	switch q.EDNS {
+	case "none":
+	case "512":
+		opt(512, false)
+	case "1232":
+		opt(1232, false)
+	case "4096":
+		opt(4096, false)
+	case "do":
+		opt(4096, true)
+	case "nsid":
+		opt(1232, false, nsid)
+	case "padding":
+		opt(1232, false, padding)
+	case "keepalive":
+		opt(1232, false, keepalive)
+	case "cookie":
+		opt(1232, false, cookie)
+	case "all":
+		opt(4096, true, nsid, padding, keepalive, cookie)
+	default:
+		vrt.Fatalf("c01: unknown EDNS kind %q", q.EDNS)
+	}
+
+	return m
+}
+
+// c01QueryNames are the names of tier B in presentation form.
+func c01QueryNames() []string {
+	long := strings.Join([]string{c01MixedLabel(63, "Ok"), c01MixedLabel(63, "b"), c01MixedLabel(63, "C"), c01MixedLabel(61, "d")}, ".") + "."
+
+	return []string{
+		".", "a.", "Ok.ExAmple.", c01MixedLabel(63, "Ok") + ".example.", long,
+		"Nx.Example.", "nodata.example.", "BIG.example.", "full.example.", "Err.example.", "silent.example.",
+	}
+}
+
+// c01FullLen is the size of the response as a transport would send it without
+// truncation: H's records, the question, and an OPT record if the client sent
+// one (with all the client's options: an upper bound of what the server echoes).
+func c01FullLen(req *dns.Msg, res c01Result) int {
+	m := (&dns.Msg{}).SetReply(req)
+	m.Answer, m.Ns, m.Extra = res.An, res.Ns, append([]dns.RR{}, res.Ex...)
+	if opt := req.IsEdns0(); opt != nil {
+		o := &dns.OPT{Hdr: dns.RR_Header{Name: ".", Rrtype: dns.TypeOPT}}
+		// An upper bound: every option of the request echoed.
+		o.Option = append(o.Option, opt.Option...)
+		m.Extra = append(m.Extra, o)
+	}
+	m.Compress = true
+
+	return m.Len()
+}
+
+func c01IsPrefix(got, want []string) bool {
+	return len(got) <= len(want) && c01SameStrings(got, want[:len(got)])
+}
+
+// c01JSONSection converts a JSON section back into canonical record strings.
+func c01JSONSection(rrs []c01JSONRR) (out []string, err error) {
+	for _, j := range rrs {
+		if j.Type == dns.TypeOPT {
+			continue
+		}
+		class := uint16(dns.ClassINET)
+		if j.Class != nil {
+			class = *j.Class
+		}
+		txt := fmt.Sprintf("%s %d %s %s %s", j.Name, j.TTL, dns.Class(class).String(), dns.Type(j.Type).String(), j.Data)
+		rr, perr := dns.NewRR(txt)
+		if perr != nil || rr == nil {
+			return nil, fmt.Errorf("record %q does not parse: %v", txt, perr)
+		}
+		out = append(out, vdns.RRString(rr, true))
+	}
+
+	return out, nil
+}
+
+// c01CompareJSON compares a JSON answer with H's result.
+func c01CompareJSON(t string, q dns.Question, want c01Tuple, jm *c01JSONMsg) (fs []vrt.Finding) {
+	if jm.Status == nil {
+		return vrt.F(t+"/answer-differs-from-seam", "JSON body without Status")
+	}
+	if len(jm.Question) != 1 || jm.Question[0].Name != q.Name || jm.Question[0].Type != q.Qtype {
+		fs = append(fs, vrt.F(t+"/response-question-differs", "request question %q type %d, JSON question %+v", q.Name, q.Qtype, jm.Question)...)
+	}
+	an, err := c01JSONSection(jm.Answer)
+	if err != nil {
+		return append(fs, vrt.F(t+"/record-unparseable", "Answer: %v", err)...)
+	}
+	ex, err := c01JSONSection(jm.Extra)
+	if err != nil {
+		return append(fs, vrt.F(t+"/record-unparseable", "Extra: %v", err)...)
+	}
+	if *jm.Status != want.Rcode || !c01SameStrings(an, want.An) || !c01SameStrings(ex, want.Ex) {
+		fs = append(fs, vrt.F(t+"/answer-differs-from-seam", "want %s; JSON Status=%d Answer=%.200q Extra=%.200q", want, *jm.Status, an, ex)...)
+	}
+	switch {
+	case jm.Authority == nil:
+		if len(want.Ns) > 0 {
+			fs = append(fs, vrt.F(t+"/authority-missing", "the pipeline's authority section %.200q is not in the JSON answer (no Authority member)", want.Ns)...)
+		}
+	default:
+		ns, nerr := c01JSONSection(*jm.Authority)
+		if nerr != nil {
+			return append(fs, vrt.F(t+"/record-unparseable", "Authority: %v", nerr)...)
+		}
+		if !c01SameStrings(ns, want.Ns) {
+			fs = append(fs, vrt.F(t+"/answer-differs-from-seam", "want authority %.200q; JSON Authority=%.200q", want.Ns, ns)...)
+		}
+	}
+
+	return fs
+}
+
+func c01HasKeepAlive(m *dns.Msg) bool {
+	if opt := m.IsEdns0(); opt != nil {
+		for _, e := range opt.Option {
+			if e.Option() == dns.EDNS0TCPKEEPALIVE {
+				return true
+			}
+		}
+	}
+
+	return false
+}
+
+// c01IsServfailSubstitute reports whether m is the documented substitute for
+// "nothing was written" on DoQ and DNSCrypt.
+func c01IsServfailSubstitute(m *dns.Msg) bool {
+	t := c01TupleOf(m)
+
+	return t.Rcode == dns.RcodeServerFailure && t.empty()
+}
+
+// c01CheckQueryOn compares what transport t showed for the well-formed query
+// wire (decoded: req) with H's result.
+func c01CheckQueryOn(r *vrt.Run, t string, wire []byte, req *dns.Msg, res c01Result, obs c01TObs) (fs []vrt.Finding) {
+	q := req.Question[0]
+	want := c01TupleOfResult(res)
+	class := func(s string) { r.Class("query:" + t + " " + res.Kind + " -> " + s) }
+	if obs.Panicked != "" {
+		return vrt.F(t+"/panic-escapes", "query %q %s: %s", q.Name, res.Kind, obs.Panicked)
+	}
+	if obs.Garbled != "" {
+		return vrt.F(t+"/garbled-stream", "query %q: %s", q.Name, obs.Garbled)
+	}
+	if len(obs.Msgs) > 1 {
+		return vrt.F(t+"/two-responses", "query %q: %d responses: %s | %s", q.Name, len(obs.Msgs), vdns.Canon(obs.Msgs[0], true), vdns.Canon(obs.Msgs[1], true))
+	}
+	keepAlive := false
+	var adv uint16
+	if opt := req.IsEdns0(); opt != nil {
+		adv = opt.UDPSize()
+		for _, e := range opt.Option {
+			keepAlive = keepAlive || e.Option() == dns.EDNS0TCPKEEPALIVE
+		}
+	}
+	ignoreID := c01IsJSON(t)
+	// Echo clauses hold whatever H did.
+	for _, m := range obs.Msgs {
+		fs = append(fs, c01EchoFindings(t, req, wire, m, ignoreID)...)
+	}
+	answered := len(obs.Msgs) == 1 || obs.JSON != nil
+
+	switch res.Kind {
+	case c01KindSilent, c01KindPanic:
+		// The statement is silent about what a client gets when the pipeline
+		// produced nothing; documented: drop (UDP), close (TCP/DoT), HTTP
+		// 500, SERVFAIL substitute (DoQ, DNSCrypt).
+		switch {
+		case !answered:
+			class(obs.note())
+		case obs.JSON != nil && obs.JSON.Status != nil && *obs.JSON.Status == dns.RcodeServerFailure && len(obs.JSON.Answer) == 0:
+			class("SERVFAIL")
+		case len(obs.Msgs) == 1 && c01IsServfailSubstitute(obs.Msgs[0]):
+			class("SERVFAIL substitute")
+		default:
+			desc := "JSON"
+			if len(obs.Msgs) == 1 {
+				desc = vdns.Canon(obs.Msgs[0], true)
+			}
+			fs = append(fs, vrt.F(t+"/silent-handler-answered", "the pipeline wrote nothing for %q, the client got %s", q.Name, desc)...)
+		}
+
+		return fs
+	}
+
+	if !answered {
+		if t == "doq" && keepAlive && obs.Closed {
+			// RFC 9250 5.5.2 and validQUICMsg: a protocol error.
+			class("edns-tcp-keepalive is a DoQ protocol error")
+
+			return fs
+		}
+
+		return append(fs, vrt.F(t+"/no-response-to-query", "query %q %s class %d edns=%v: %s; the pipeline produced %s",
+			q.Name, dns.Type(q.Qtype), q.Qclass, req.IsEdns0() != nil, obs.note(), want)...)
+	}
+	if obs.JSON != nil {
+		class("json")
+		r.State(fmt.Sprintf("%s|%s|json|%d|%d|%d", t, res.Kind, *obs.JSON.Status, len(obs.JSON.Answer), len(obs.JSON.Extra)))
+
+		return append(fs, c01CompareJSON(t, q, want, obs.JSON)...)
+	}
+	m := obs.Msgs[0]
+	got := c01TupleOf(m)
+	r.State(t + "|" + vdns.Canon(m, true) + "|" + vdns.OPTString(m))
+	if m.Truncated {
+		class("truncated")
+		datagram := t == "udp" || t == "dnscrypt-udp"
+		full := c01FullLen(req, res)
+		if !datagram || full+40 <= c01UDPLimit(adv) {
+			fs = append(fs, vrt.F(t+"/truncated-without-need", "query %q advertising %d: TC set although the full response is %d octets", q.Name, adv, full)...)
+		}
+		if got.Rcode != want.Rcode || !c01IsPrefix(got.An, want.An) || !c01IsPrefix(got.Ns, want.Ns) || !c01IsPrefix(got.Ex, want.Ex) {
+			fs = append(fs, vrt.F(t+"/answer-differs-from-seam", "truncated response is not a part of the pipeline's: want %s, got %s", want, got)...)
+		}
+
+		return fs
+	}
+	class("full")
+	if !got.equal(want) {
+		fs = append(fs, vrt.F(t+"/answer-differs-from-seam", "query %q %s class %d: the pipeline produced %s; the client got %s",
+			q.Name, dns.Type(q.Qtype), q.Qclass, want, got)...)
+	}
+
+	return fs
+}
+
+// c01SkipJSON reports whether a query is outside what the JSON API documents
+// ("a number in [1, 65535]").
+func c01SkipJSON(q dns.Question) bool { return q.Qtype == 0 || q.Qclass == 0 }
+
+// c01RunQuery is one case of the agreement part.
+func c01RunQuery(r *vrt.Run, c c01Query) (fs []vrt.Finding) {
+	rig := c01GetRig()
+	req := c01QueryMsg(c)
+	wire := c01MustPack(req)
+	sp := c01Classify(wire)
+	if sp.Ref == nil || !strings.HasPrefix(sp.Class, "query-") {
+		vrt.Fatalf("c01: tier B query %+v is not a well-formed query (class %s)", c, sp.Class)
+	}
+	// Tier A's result for the same message.
+	fs = append(fs, c01CheckSeam(r, wire)...)
+	for _, t := range c01Transports {
+		if c01IsJSON(t) && c01SkipJSON(req.Question[0]) {
+			continue
+		}
+		w, rq := wire, sp.Ref
+		if t == "doq" {
+			// RFC 9250 4.2.1: the Message ID MUST be 0 over DoQ.
+			w = append([]byte{}, wire...)
+			w[0], w[1] = 0, 0
+			rq = sp.Ref.Copy()
+			rq.Id = 0
+		}
+		obs := c01Send(rig, t, w, rq, false)
+		r.Trans(1)
+		fs = append(fs, c01CheckQueryOn(r, t, w, rq, sp.H, obs)...)
+	}
+	// Pipelining: the same message followed by a sentinel on one TCP and one
+	// TLS connection; both frames must come back intact.
+	sent := c01SentinelMsg()
+	sentWire := c01MustPack(sent)
+	for _, t := range []string{"tcp", "dot"} {
+		s := rig.plain
+		if t == "dot" {
+			s = rig.dot
+		}
+		ts := c01NewTCPSession(s, append(c01Frame(wire), c01Frame(sentWire)...))
+		first, _ := ts.next()
+		r.Trans(1)
+		fs = append(fs, c01CheckQueryOn(r, t, wire, sp.Ref, sp.H, first)...)
+		if first.Closed {
+			// Documented for "nothing written".
+			continue
+		}
+		second, _ := ts.next()
+		r.Trans(1)
+		fs = append(fs, c01CheckSentinel(r, t, "same-connection", sentWire, sent, second)...)
+	}
+
+	return fs
+}
+
+// ---- Sentinel ----------------------------------------------------------------------------------
+
+func c01SentinelMsg() *dns.Msg {
+	return vdns.NewReq(0x5e17, "Ok.Sentinel.Example.", dns.TypeA, dns.ClassINET)
+}
+
+// c01CheckSentinel requires the sentinel to be answered normally.
+func c01CheckSentinel(r *vrt.Run, t, after string, wire []byte, req *dns.Msg, obs c01TObs) (fs []vrt.Finding) {
+	q := req.Question[0]
+	res := c01H(q.Name, q.Qtype, q.Qclass)
+	sub := c01CheckQueryOn(r, t, wire, req, res, obs)
+	if len(sub) == 0 {
+		return nil
+	}
+
+	return vrt.F(t+"/sentinel-not-answered", "after %s the sentinel query was not answered normally: [%s] %s", after, sub[0].Key, sub[0].Detail)
+}
+
+func c01SendSentinel(r *vrt.Run, rig *c01Rig, t, after string) []vrt.Finding {
+	req := c01SentinelMsg()
+	if t == "doq" {
+		req.Id = 0
+	}
+	wire := c01MustPack(req)
+	obs := c01Send(rig, t, wire, req, false)
+	r.Trans(1)
+
+	return c01CheckSentinel(r, t, after, wire, req, obs)
+}
+
+// ---- Malformed input per transport ----------------------------------------------------------------
+
+// c01BadCase is one malformed input on one transport.
+type c01BadCase struct {
+	T    string `json:"t"`
+	What string `json:"what"`
+}
+
+// c01BadWire are the malformed DNS messages sent over every wire transport.
+func c01BadWire() (names []string, wires map[string][]byte) {
+	wires = map[string][]byte{}
+	add := func(n string, w []byte) { names = append(names, n); wires[n] = w }
+	q := c01MustPack(vdns.NewReq(0x4242, "Ok.ExAmple.", dns.TypeA, dns.ClassINET))
+	flags := func(f uint16) []byte {
+		w := append([]byte{}, q...)
+		binary.BigEndian.PutUint16(w[2:], f)
+
+		return w
+	}
+	counts := func(qd, an, ns, ar int) []byte {
+		w := c01FlagsWire(c01FlagsCase{Flags: 0x0100, Qd: qd, An: an, Ns: ns, Ar: ar})
+		binary.BigEndian.PutUint16(w, 0x4343)
+
+		return w
+	}
+	add("empty", []byte{})
+	add("five-octets", q[:5])
+	add("header-only", q[:12])
+	add("question-cut", q[:len(q)-3])
+	add("pointer-loop", c01QuestionWire(0x4444, 0x0100, []byte{2, 'o', 'k', 0xC0, 15}, dns.TypeA, dns.ClassINET))
+	add("response", flags(0x8180))
+	add("response-with-answer", c01Seeds()[11])
+	add("opcode-3", flags(3<<11|0x0100))
+	add("opcode-6", flags(6<<11|0x0100))
+	add("opcode-15", flags(15<<11|0x0100))
+	add("opcode-status", flags(2<<11|0x0100))
+	add("opcode-update", c01Seeds()[12])
+	add("qd-0", counts(0, 0, 0, 0))
+	add("qd-0-ar-1", counts(0, 0, 0, 1))
+	add("qd-2", counts(2, 0, 0, 0))
+	add("an-2", counts(1, 2, 0, 0))
+	add("ns-2", counts(1, 0, 2, 1))
+	add("qd-2-response", func() []byte { w := counts(2, 0, 0, 0); w[2] |= 0x80; return w }())
+	add("trailing-garbage", append(append([]byte{}, q...), 0xde, 0xad, 0xbe))
+
+	return names, wires
+}
+
+// c01BadSpecific are the malformed inputs that exist on one transport only.
+var c01BadSpecific = map[string][]string{
+	"tcp":      {"tcp-short-frame", "tcp-zero-length", "tcp-one-octet"},
+	"dot":      {"tcp-short-frame", "tcp-zero-length", "tcp-one-octet"},
+	"doq":      {"doq-length-too-big", "doq-length-too-small", "doq-no-prefix", "doq-empty-stream", "doq-keepalive"},
+	"doh-post": {"post-empty-body", "put-method", "other-path", "post-no-content-type"},
+	"doh-get":  {"get-no-dns-param", "get-two-dns-params", "get-std-base64-padded", "get-bad-base64", "get-empty-dns-param"},
+	"doh-json": {
+		"json-no-name", "json-empty-name", "json-type-garbage", "json-type-65536", "json-type-negative", "json-qc-garbage",
+		"json-cd-2", "json-do-maybe", "json-label-too-long", "json-name-too-long",
+	},
+}
+
+// c01GoodForGet is a well-formed query whose base64url form needs no padding
+// but whose standard form differs (it contains '-' or '_').
+func c01GoodForGet() (wire []byte, req *dns.Msg) {
+	for id := uint16(0x6000); id < 0x7000; id++ {
+		req = vdns.NewReq(id, "Ok.ExAmple.", dns.TypeA, dns.ClassINET)
+		wire = c01MustPack(req)
+		if strings.ContainsAny(base64.RawURLEncoding.EncodeToString(wire), "-_") {
+			return wire, req
+		}
+	}
+	vrt.Fatalf("c01: no id gives a base64url form with - or _")
+
+	return nil, nil
+}
+
+// c01SendRaw sends arbitrary bytes as one DNS message in the framing of the
+// wire transport t.
+func c01SendRaw(rig *c01Rig, t string, w []byte) (obs c01TObs) {
+	switch t {
+	case "udp":
+		return c01UDP(rig, w)
+	case "tcp":
+		return c01TCP(rig.plain, c01Frame(w))
+	case "dot":
+		return c01TCP(rig.dot, c01Frame(w))
+	case "doq":
+		return c01DoQ(rig, c01Frame(w))
+	case "doh-post":
+		return c01HTTP(rig, http.MethodPost, PathDoH, w, false)
+	case "doh-get":
+		return c01HTTP(rig, http.MethodGet, PathDoH+"?dns="+base64.RawURLEncoding.EncodeToString(w), nil, false)
+	case "dnscrypt-udp":
+		return c01Crypt(rig, true, w)
+	case "dnscrypt-tcp":
+		return c01Crypt(rig, false, w)
+	}
+	vrt.Fatalf("c01: %q is not a wire transport", t)
+
+	return obs
+}
+
+// c01WireTransports are the transports that carry the client's own bytes.
+var c01WireTransports = []string{"udp", "tcp", "dot", "doq", "doh-post", "doh-get", "dnscrypt-udp", "dnscrypt-tcp"}
+
+// c01CheckWireOn judges what transport t showed for arbitrary bytes sent as
+// one message.
+func c01CheckWireOn(r *vrt.Run, t, what string, wire []byte, obs c01TObs) (fs []vrt.Finding) {
+	switch {
+	case obs.Skipped:
+		r.Class("bad:" + t + " -> dropped by the dnscrypt library")
+
+		return nil
+	case obs.Panicked != "":
+		return vrt.F(t+"/panic-escapes", "input %s: %s", what, obs.Panicked)
+	case obs.Garbled != "":
+		return vrt.F(t+"/garbled-stream", "input %s: %s", what, obs.Garbled)
+	}
+	sp := c01Classify(wire)
+	if sp.Ref != nil && strings.HasPrefix(sp.Class, "query-") {
+		return c01CheckQueryOn(r, t, wire, sp.Ref, sp.H, obs)
+	}
+	if sp.Allowed[c01TH] && len(obs.Msgs) == 1 {
+		// Treating the message as a query is one of the documented options
+		// (NOTIFY, one record in the answer or authority section); if the
+		// server took it, the query clauses (incl. size truncation) apply.
+		if rc := obs.Msgs[0].Rcode; rc != dns.RcodeFormatError && rc != dns.RcodeNotImplemented {
+			return c01CheckQueryOn(r, t, wire, sp.Ref, sp.H, obs)
+		}
+	}
+
+	return c01CheckBadWire(r, t, what, wire, obs)
+}
+
+// c01RunBad is one case of the malformed part.
+func c01RunBad(r *vrt.Run, c c01BadCase) (fs []vrt.Finding) {
+	rig := c01GetRig()
+	t := c.T
+	_, wires := c01BadWire()
+	good, goodReq := c01GoodForGet()
+
+	var obs c01TObs
+	var wire []byte  // the DNS message the input carries, if any
+	carries := false // whether the input carries a DNS message in the transport's framing
+	if w, ok := wires[c.What]; ok {
+		wire, carries = w, true
+		obs = c01SendRaw(rig, t, w)
+	} else {
+		s := rig.plain
+		if t == "dot" {
+			s = rig.dot
+		}
+		jsonT := func(v url.Values) string { return PathJSON + "?" + v.Encode() }
+		switch c.What {
+		case "tcp-short-frame":
+			obs = c01TCP(s, append([]byte{0, 40}, good[:20]...))
+		case "tcp-zero-length":
+			obs = c01TCP(s, []byte{0, 0})
+		case "tcp-one-octet":
+			obs = c01TCP(s, []byte{0})
+		case "doq-length-too-big":
+			obs = c01DoQ(rig, append(binary.BigEndian.AppendUint16(nil, uint16(len(good)+2)), good...))
+		case "doq-length-too-small":
+			obs = c01DoQ(rig, append(binary.BigEndian.AppendUint16(nil, uint16(len(good)-2)), good...))
+		case "doq-no-prefix":
+			obs = c01DoQ(rig, good)
+		case "doq-empty-stream":
+			obs = c01DoQ(rig, nil)
+		case "doq-keepalive":
+			m := c01QueryMsg(c01Query{Name: "Ok.ExAmple.", Qtype: dns.TypeA, Qclass: dns.ClassINET, RD: true, EDNS: "keepalive"})
+			m.Id = 0
+			obs = c01DoQ(rig, c01Frame(c01MustPack(m)))
+		case "post-empty-body":
+			obs = c01HTTP(rig, http.MethodPost, PathDoH, []byte{}, false)
+		case "put-method":
+			obs = c01HTTP(rig, http.MethodPut, PathDoH, good, false)
+			wire = good
+		case "other-path":
+			obs = c01HTTP(rig, http.MethodPost, "/other", good, false)
+			wire = good
+		case "post-no-content-type":
+			// RFC 8484 requires the media type; the statement does not say
+			// what happens without it.
+			h := &httpHandler{srv: rig.doh, localAddr: c01TCPLocal}
+			hr := httptest.NewRequest(http.MethodPost, "https://dns.example"+PathDoH, bytes.NewReader(good))
+			hr.RemoteAddr = "198.51.100.7:40000"
+			rec := httptest.NewRecorder()
+			obs.Panicked = vrt.Catch(func() { h.ServeHTTP(rec, hr) })
+			obs.HTTPStatus = rec.Code
+			if rec.Code == http.StatusOK && rec.Body.Len() > 0 {
+				m := &dns.Msg{}
+				if err := m.Unpack(rec.Body.Bytes()); err != nil {
+					obs.Garbled = err.Error()
+				} else {
+					obs.Msgs = []*dns.Msg{m}
+				}
+			}
+			wire = good
+		case "get-no-dns-param":
+			obs = c01HTTP(rig, http.MethodGet, PathDoH, nil, false)
+		case "get-empty-dns-param":
+			obs = c01HTTP(rig, http.MethodGet, PathDoH+"?dns=", nil, false)
+		case "get-two-dns-params":
+			e := base64.RawURLEncoding.EncodeToString(good)
+			obs = c01HTTP(rig, http.MethodGet, PathDoH+"?dns="+e+"&dns="+e, nil, false)
+			wire = good
+		case "get-std-base64-padded":
+			// Not the encoding RFC 8484 prescribes.
+			obs = c01HTTP(rig, http.MethodGet, PathDoH+"?dns="+url.QueryEscape(base64.StdEncoding.EncodeToString(good)), nil, false)
+			wire = good
+		case "get-bad-base64":
+			obs = c01HTTP(rig, http.MethodGet, PathDoH+"?dns=%21%21%21%21", nil, false)
+		case "json-no-name":
+			obs = c01HTTP(rig, http.MethodGet, jsonT(url.Values{"type": {"A"}}), nil, true)
+		case "json-empty-name":
+			obs = c01HTTP(rig, http.MethodGet, jsonT(url.Values{"name": {""}, "type": {"A"}}), nil, true)
+		case "json-type-garbage":
+			obs = c01HTTP(rig, http.MethodGet, jsonT(url.Values{"name": {"ok.example."}, "type": {"garbage"}}), nil, true)
+		case "json-type-65536":
+			obs = c01HTTP(rig, http.MethodGet, jsonT(url.Values{"name": {"ok.example."}, "type": {"65536"}}), nil, true)
+		case "json-type-negative":
+			obs = c01HTTP(rig, http.MethodGet, jsonT(url.Values{"name": {"ok.example."}, "type": {"-1"}}), nil, true)
+		case "json-qc-garbage":
+			obs = c01HTTP(rig, http.MethodGet, jsonT(url.Values{"name": {"ok.example."}, "qc": {"garbage"}}), nil, true)
+		case "json-cd-2":
+			obs = c01HTTP(rig, http.MethodGet, jsonT(url.Values{"name": {"ok.example."}, "cd": {"2"}}), nil, true)
+		case "json-do-maybe":
+			obs = c01HTTP(rig, http.MethodGet, jsonT(url.Values{"name": {"ok.example."}, "do": {"maybe"}}), nil, true)
+		case "json-label-too-long":
+			obs = c01HTTP(rig, http.MethodGet, jsonT(url.Values{"name": {c01MixedLabel(64, "ok") + ".example."}}), nil, true)
+		case "json-name-too-long":
+			n := strings.Repeat(c01MixedLabel(63, "ok")+".", 4) + "example."
+			obs = c01HTTP(rig, http.MethodGet, jsonT(url.Values{"name": {n}}), nil, true)
+		default:
+			vrt.Fatalf("c01: bad case %+v", c)
+		}
+	}
+	r.Trans(1)
+
+	switch {
+	case carries:
+		fs = append(fs, c01CheckWireOn(r, t, c.What, wire, obs)...)
+	case obs.Panicked != "":
+		fs = append(fs, vrt.F(t+"/panic-escapes", "malformed input %s: %s", c.What, obs.Panicked)...)
+	case obs.Garbled != "":
+		fs = append(fs, vrt.F(t+"/garbled-stream", "malformed input %s: %s", c.What, obs.Garbled)...)
+	default:
+		fs = append(fs, c01CheckBadFraming(r, t, c.What, wire, goodReq, obs)...)
+	}
+
+	// The listener object still answers.
+	return append(fs, c01SendSentinel(r, rig, t, "malformed input "+c.What)...)
+}
+
+// c01CheckBadWire judges the treatment of a DNS message that arrived intact
+// in the transport's framing but is not an acceptable query.
+func c01CheckBadWire(r *vrt.Run, t, what string, wire []byte, obs c01TObs) (fs []vrt.Finding) {
+	sp := c01Classify(wire)
+	got := c01Treatment(sp, obs.Msgs)
+	allowed := map[string]bool{}
+	for k := range sp.Allowed {
+		allowed[k] = true
+	}
+	substitute := false
+	switch {
+	case strings.HasPrefix(t, "doh"):
+		// "FORMERR / NOTIMP body or non-200".
+		if len(obs.Msgs) == 0 && obs.HTTPStatus != http.StatusOK {
+			allowed[c01TNone] = true
+		}
+	case t == "doq" || strings.HasPrefix(t, "dnscrypt"):
+		// Documented substitute for "nothing written": SERVFAIL with the same
+		// ID and question (serveQUICStream, dnsCryptHandler.ServeDNS).
+		if allowed[c01TNone] && len(obs.Msgs) == 1 && c01IsServfailSubstitute(obs.Msgs[0]) && sp.Ref != nil {
+			substitute = true
+		}
+	}
+	if t == "doq" && sp.Ref != nil && len(obs.Msgs) == 0 && obs.Closed && c01HasKeepAlive(sp.Ref) {
+		// RFC 9250 5.5.2 and validQUICMsg: a protocol error whatever else the
+		// message is.
+		allowed[c01TNone] = true
+	}
+	if (t == "tcp" || t == "dot") && sp.Allowed[c01TNone] && sp.H.Kind == "" && len(obs.Msgs) == 0 && !obs.Closed {
+		// serveTCPMessage: "Nothing has been written, we should close the
+		// connection in order to avoid hanging connections."
+		fs = append(fs, vrt.F(t+"/dropped-message-connection-left-open", "malformed input %s (class %s): nothing written and the connection is left open", what, sp.Class)...)
+	}
+	if strings.HasPrefix(t, "doh") && sp.Allowed[c01TNone] && len(obs.Msgs) == 0 && obs.HTTPStatus == http.StatusOK {
+		// A dropped message must not look like a successful exchange.
+		fs = append(fs, vrt.F(t+"/dropped-message-gets-200", "malformed input %s (class %s): HTTP 200 with an empty body", what, sp.Class)...)
+	}
+	desc := got
+	if substitute {
+		desc = "SERVFAIL substitute"
+	} else if len(obs.Msgs) == 0 {
+		desc = obs.note()
+	}
+	r.Class("bad:" + t + " " + sp.Class + " -> " + desc)
+	r.State("bad|" + t + "|" + what + "|" + desc)
+	if !substitute {
+		spT := sp
+		spT.Allowed = allowed
+		fs = append(fs, c01TreatmentFindings(t, spT, got, obs.Msgs)...)
+	}
+	for _, m := range obs.Msgs {
+		fs = append(fs, c01EchoFindings(t, sp.Ref, wire, m, false)...)
+	}
+
+	return fs
+}
+
+// c01CheckBadFraming judges the treatment of an input that violates the
+// transport's own framing or parameters.  The documented treatment is an
+// error at the transport level (close, non-200).  The statement is silent on
+// inputs from which a well-formed query can still be recovered (wire != nil):
+// a normal answer to exactly that query is tolerated.
+func c01CheckBadFraming(r *vrt.Run, t, what string, wire []byte, goodReq *dns.Msg, obs c01TObs) (fs []vrt.Finding) {
+	switch {
+	case obs.JSON != nil:
+		st := -1
+		if obs.JSON.Status != nil {
+			st = *obs.JSON.Status
+		}
+		r.Class("bad:" + t + " " + what + " -> json status " + strconv.Itoa(st))
+		if st != dns.RcodeFormatError && st != dns.RcodeNotImplemented && st != dns.RcodeServerFailure {
+			fs = append(fs, vrt.F(t+"/invalid-parameter-answered", "%s: HTTP 200 with Status %d Question %+v Answer %+v", what, st, obs.JSON.Question, obs.JSON.Answer)...)
+		}
+	case len(obs.Msgs) == 0:
+		r.Class("bad:" + t + " " + what + " -> " + obs.note())
+		if strings.HasPrefix(t, "doh") && obs.HTTPStatus == http.StatusOK {
+			fs = append(fs, vrt.F(t+"/dropped-message-gets-200", "%s: HTTP 200 with an empty body", what)...)
+		}
+	case len(obs.Msgs) > 1:
+		fs = append(fs, vrt.F(t+"/two-responses", "%s: %d responses", what, len(obs.Msgs))...)
+	default:
+		m := obs.Msgs[0]
+		tu := c01TupleOf(m)
+		isErr := tu.empty() && (tu.Rcode == dns.RcodeFormatError || tu.Rcode == dns.RcodeNotImplemented || tu.Rcode == dns.RcodeServerFailure)
+		switch {
+		case wire != nil:
+			q := goodReq.Question[0]
+			if !isErr && !tu.equal(c01TupleOfResult(c01H(q.Name, q.Qtype, q.Qclass))) {
+				fs = append(fs, vrt.F(t+"/malformed-framing-answered", "%s: %s", what, vdns.Canon(m, true))...)
+			}
+			fs = append(fs, c01EchoFindings(t, goodReq, wire, m, false)...)
+			r.Class("bad:" + t + " " + what + " -> answered " + dns.RcodeToString[tu.Rcode])
+		case !isErr:
+			fs = append(fs, vrt.F(t+"/malformed-framing-answered", "%s: %s", what, vdns.Canon(m, true))...)
+		default:
+			r.Class("bad:" + t + " " + what + " -> " + dns.RcodeToString[tu.Rcode])
+		}
+	}
+
+	return fs
+}
+
+// c01TByteCase is one byte-level mutation sent over one transport.
+type c01TByteCase struct {
+	T string      `json:"t"`
+	B c01ByteCase `json:"b"`
+}
+
+// ---- Handler panic per transport ---------------------------------------------------------------------
+
+// c01PanicCase is one query whose handler panics, on one transport.
+type c01PanicCase struct {
+	T     string `json:"t"`
+	Qtype uint16 `json:"qtype"`
+	EDNS  string `json:"edns"`
+}
+
+func c01RunPanic(r *vrt.Run, c c01PanicCase) (fs []vrt.Finding) {
+	rig := c01GetRig()
+	req := c01QueryMsg(c01Query{Name: "Panic.example.", Qtype: c.Qtype, Qclass: dns.ClassINET, RD: true, EDNS: c.EDNS})
+	if c.T == "doq" {
+		req.Id = 0
+	}
+	wire := c01MustPack(req)
+	q := req.Question[0]
+	obs := c01Send(rig, c.T, wire, req, true)
+	r.Trans(1)
+	// Escaping panic, anything but "nothing / SERVFAIL", wrong echo.
+	fs = append(fs, c01CheckQueryOn(r, c.T, wire, req, c01H(q.Name, q.Qtype, q.Qclass), obs)...)
+
+	return append(fs, c01SendSentinel(r, rig, c.T, "a handler panic")...)
+}
+
+// ---- Tier B ---------------------------------------------------------------------------------------------
+
+func c01TierB(r *vrt.Run) {
+	names := c01QueryNames()
+	r.Bound("transports", len(c01Transports))
+	r.Bound("query_names", len(names))
+	r.Bound("query_edns_kinds", len(c01EDNSKinds))
+	r.Bound("query_product", vrt.Pick(r, "names x qtypes x qclasses (RD) + names x {A,TXT} x RD/AD/CD x EDNS kinds", "names x qtypes x qclasses x RD/AD/CD x EDNS kinds"))
+	vrt.Part(r, "transport-agreement",
+		func(emit func(c01Query)) {
+			if r.Thorough() {
+				for _, n := range names {
+					for _, qt := range c01Qtypes {
+						for _, qc := range c01Qclasses {
+							for fl := 0; fl < 8; fl++ {
+								for _, e := range c01EDNSKinds {
+									emit(c01Query{Name: n, Qtype: qt, Qclass: qc, RD: fl&1 == 0, AD: fl&2 != 0, CD: fl&4 != 0, EDNS: e})
+								}
+							}
+						}
+					}
+				}
+
+				return
+			}
+			for _, n := range names {
+				for _, qt := range c01Qtypes {
+					for _, qc := range c01Qclasses {
+						emit(c01Query{Name: n, Qtype: qt, Qclass: qc, RD: true, EDNS: "none"})
+					}
+				}
+			}
+			for _, n := range names {
+				for _, qt := range []uint16{dns.TypeA, dns.TypeTXT} {
+					for fl := 0; fl < 8; fl++ {
+						for _, e := range c01EDNSKinds {
+							emit(c01Query{Name: n, Qtype: qt, Qclass: dns.ClassINET, RD: fl&1 == 0, AD: fl&2 != 0, CD: fl&4 != 0, EDNS: e})
+						}
+					}
+				}
+			}
+		},
+		func(c c01Query) []vrt.Finding { return c01RunQuery(r, c) })
+
+	// Every qtype and every qclass on every transport.
+	allValues := vrt.Pick(r, 300, 65536)
+	r.Bound("transport_all_qtypes_qclasses_below", allValues)
+	vrt.Part(r, "transport-agreement-all-types",
+		func(emit func(c01Query)) {
+			for v := 0; v < allValues; v++ {
+				emit(c01Query{Name: "Ok.ExAmple.", Qtype: uint16(v), Qclass: dns.ClassINET, RD: true, EDNS: "none"})
+				emit(c01Query{Name: "Ok.ExAmple.", Qtype: dns.TypeA, Qclass: uint16(v), RD: true, EDNS: "1232"})
+			}
+		},
+		func(c c01Query) []vrt.Finding { return c01RunQuery(r, c) })
+
+	// The byte-level alphabet of tier A through every wire transport.
+	r.Bound("transport_byte_ops", vrt.Pick(r, "seeds x (every truncation; every offset x {00,FF,C0,3F,b^80}) x 8 wire transports",
+		"seeds x (every truncation; every offset x every other octet value) x 8 wire transports"))
+	vrt.Part(r, "transport-bytes",
+		func(emit func(c01TByteCase)) {
+			c01ByteCases(r.Thorough(), func(b c01ByteCase) {
+				for _, t := range c01WireTransports {
+					emit(c01TByteCase{T: t, B: b})
+				}
+			})
+		},
+		func(c c01TByteCase) []vrt.Finding {
+			wire := c01ByteWire(c.B)
+			obs := c01SendRaw(c01GetRig(), c.T, wire)
+			r.Trans(1)
+
+			return c01CheckWireOn(r, c.T, fmt.Sprintf("seed %d %s at %d", c.B.Seed, c.B.Op, c.B.Off), wire, obs)
+		})
+
+	badNames, _ := c01BadWire()
+	r.Bound("malformed_messages", len(badNames))
+	vrt.Part(r, "transport-malformed",
+		func(emit func(c01BadCase)) {
+			for _, t := range c01Transports {
+				if !c01IsJSON(t) {
+					for _, n := range badNames {
+						emit(c01BadCase{T: t, What: n})
+					}
+				}
+				for _, n := range c01BadSpecific[t] {
+					emit(c01BadCase{T: t, What: n})
+				}
+			}
+		},
+		func(c c01BadCase) []vrt.Finding { return c01RunBad(r, c) })
+
+	vrt.Part(r, "transport-panic",
+		func(emit func(c01PanicCase)) {
+			for _, t := range c01Transports {
+				for _, qt := range []uint16{dns.TypeA, dns.TypeTXT} {
+					for _, e := range []string{"none", "all"} {
+						emit(c01PanicCase{T: t, Qtype: qt, EDNS: e})
+					}
+				}
+			}
+		},
+		func(c c01PanicCase) []vrt.Finding { return c01RunPanic(r, c) })
+}
